@@ -9,6 +9,7 @@ pub mod c04;
 pub mod c05;
 pub mod c06;
 pub mod c07;
+pub mod c09;
 pub mod c11;
 pub mod c12;
 pub mod c13;
@@ -49,6 +50,7 @@ pub fn make(prop: &str, flavour: &str) -> Option<Box<dyn Monitor>> {
         "C05" => Some(Box::new(c05::C05::new())),
         "C06" => Some(Box::new(c06::C06::new())),
         "C07" => Some(Box::new(c07::C07::new())),
+        "C09" => Some(Box::new(c09::C09::new())),
         "C11" => Some(Box::new(c11::C11::new(flavour))),
         "C12" => Some(Box::new(c12::C12::new())),
         "C13" => Some(Box::new(c13::C13::new())),
